@@ -177,6 +177,38 @@ def ob_read(keys, notes, tps, svs, ctx, meta=True):
         ctx.observe("hit%d.t" % i, x)
 
 
+META_ATTR = dict(AudioFile="audio_file", SongPreviewTime="song_preview_time", BackgroundFile="background_file", BannerFile="banner_file", Genre="genre",
+                 BPMDoesNotAffectScrollVelocity="bpm_does_not_affect_scroll_velocity", InitialScrollVelocity="initial_scroll_velocity", HasScratchKey="has_scratch_key",
+                 MapId="map_id", MapSetId="map_set_id", Mode="mode", Title="title", Artist="artist", Source="source", Creator="creator", DifficultyName="difficulty_name",
+                 Description="description", EditorLayers="editor_layers", CustomAudioSamples="custom_audio_samples", SoundEffects="sound_effects")
+
+
+def ob_read_meta_subset(omitted, ctx):
+    """every metadata key carries a value of its own (the numeric ones symbolic); the keys in `omitted` are left out: a declared key
+    is read as declared, an omitted key as the reader's default (what a document without metadata gives), whatever the other keys say"""
+    full = dict(AudioFile="au.mp3", SongPreviewTime=ctx.int("preview", 0, 10**7), BackgroundFile="bg.png", BannerFile="bn.png", Genre="gen", BPMDoesNotAffectScrollVelocity=True,
+                InitialScrollVelocity=ctx.real("isv"), HasScratchKey=True, MapId=ctx.int("map_id", 0, 10**7), MapSetId=ctx.int("map_set_id", 0, 10**7), Mode="Keys7", Title="Ti",
+                Artist="Ar", Source="So", Tags="t1 t2", Creator="Cr", DifficultyName="Di", Description="De", EditorLayers=[dict(Name="L1")], CustomAudioSamples=[dict(Path="p.wav")],
+                SoundEffects=[dict(StartTime=5, Sample=1, Volume=50)])
+    ctx.assume(full["MapId"] != full["MapSetId"])
+    body = dict(HitObjects=[dict(StartTime=100, Lane=1, KeySounds=[])], TimingPoints=[dict(StartTime=0, Bpm=120)], SliderVelocities=[])
+    d = {k: v for k, v in full.items() if k not in omitted}
+    d.update(copy.deepcopy(body))
+    m = _read(d)
+    m0 = _read(copy.deepcopy(body))
+    for k, attr in META_ATTR.items():
+        got = getattr(m, attr)
+        if k in omitted:
+            ctx.check("read.meta{%s}.omitted-key-has-the-default" % k, cell_same(ctx, got, getattr(m0, attr)), note="%r vs default %r" % (got, getattr(m0, attr)))
+        else:
+            ctx.check("read.meta{%s}.as-declared" % k, cell_same(ctx, got, full[k]) if not isinstance(full[k], list) else got == full[k], note="%r vs %r" % (got, full[k]))
+    ctx.check("read.meta{Tags}", list(m.tags) == ([] if "Tags" in omitted else ["t1", "t2"]), note="%r" % (m.tags,))
+    d2 = _write(m)
+    for k in META_ATTR:
+        if k not in omitted:
+            ctx.check("write-of-read.meta{%s}.as-declared" % k, k in d2 and (cell_same(ctx, d2[k], full[k]) if not isinstance(full[k], list) else d2[k] == full[k]), note="%r" % (d2.get(k),))
+
+
 def _chart(ctx, keys, nh, nl, nb, ns):
     C = classes("qua")
     hits = [(ctx.real("ht%d" % i), i % keys, dict(keysounds=[] if i % 2 else [dict(Sample=1, Volume=50)])) for i in range(nh)]
@@ -256,6 +288,7 @@ def obligations(tier, seed):
         [N("hit", True, False)],
         [N("hit", False, False), N("hold", False, False)],
         [],
+        [N("hit", True, True), N("hold", True, True), N("hit", True, False), N("hold", True, True)],  # interleaved, as Quaver lists them (by time)
     ]
     if not quick:
         note_sets += [[N("hit", a, b), N("hold", c, d), N("hit", True, True)] for a, b, c, d in itertools.product((True, False), repeat=4)][::3]
@@ -265,13 +298,18 @@ def obligations(tier, seed):
         for ni, notes in enumerate(note_sets):
             for ti, tps in enumerate(tp_sets):
                 for si, svs in enumerate(sv_sets):
-                    if quick and (ni + ti + si) % 3 and not (ni in (1, 2, 3) and ti == 0 and si == 0):
+                    if quick and (ni + ti + si) % 3 and not (ni in (1, 2, 3, 7) and ti == 0 and si == 0):
                         continue
                     if keys != 4 and (ti or si):
                         continue
                     obs.append(Obligation("C06/read/K%d/notes%d/tp%d/sv%d" % (keys, ni, ti, si), partial(ob_read, keys, notes, tps, svs),
                                           bound="document with %d lanes; objects %s (kind, StartTime present, KeySounds present); timing points StartTime present %s; SVs (StartTime, Multiplier present) %s; all numbers symbolic"
                                                 % (keys, notes, tps, svs), max_paths=5000, timeout_s=240))
+    keys_ = list(META_ATTR) + ["Tags"]
+    subsets = [()] + [(k,) for k in keys_] + [("MapId", "MapSetId"), ("Title", "Artist", "Creator"), ("Mode", "HasScratchKey")]
+    for om in subsets:
+        obs.append(Obligation("C06/read/meta-omitted=%s" % ("+".join(om) or "none"), partial(ob_read_meta_subset, om),
+                              bound="document declaring every metadata key with its own value (ids, preview time, initial scroll velocity symbolic) except %s" % (list(om),)))
     obs.append(Obligation("C06/read/no-metadata", partial(ob_read, 4, note_sets[0], [True], [], meta=False), bound="document with the three sections only (every metadata key omitted)"))
     for keys in (4, 7, 8):
         for shape in ([(2, 1, 1, 1), (0, 2, 1, 0), (2, 0, 2, 2), (0, 0, 1, 0)] if quick else [(2, 1, 1, 1), (0, 2, 1, 0), (2, 0, 2, 2), (0, 0, 1, 0), (3, 2, 1, 1), (1, 3, 2, 0)]):
